@@ -417,10 +417,13 @@ func c12source(c *an.Ctx) {
 			continue
 		}
 		for _, rc := range an.CallsTo(fn, readMPUB) {
-			same := false
-			for _, pc := range an.CallsTo(fn, putMs) {
-				if an.SameValue(recvArg(pc), rc.Common().Args[2]) {
-					same = true
+			// every PutMessages of this handler goes to the topic whose generator numbered the batch (a retry on a
+			// re-resolved topic would carry ids of the old topic object)
+			puts := an.CallsTo(fn, putMs)
+			same := len(puts) > 0
+			for _, pc := range puts {
+				if !an.SameValue(recvArg(pc), rc.Common().Args[2]) {
+					same = false
 				}
 			}
 			c.Check(same, fn, "batch ids come from the receiving topic", rc.Pos(), "", "readMPUB is given a different topic than the one PutMessages is called on")
